@@ -159,6 +159,73 @@ Example ex_silent_reject_not_counted :
   exists r, snd (icheck py_cc [fun _ => VRet false false] ist0 x_hello) = IOk r /\ ir_allowed r = true.
 Proof. vm_compute. eauto. Qed.
 
+(* c10_signatures_judged_alone, and the hypotheses sig_fold_ok / sig_embed_ok of
+   c10_case_stable / c10_embed_stable_regex for a HOST pattern: (\w)\1 under
+   IGNORECASE ("a word character doubled": a back-reference, no term of the
+   regex AST denotes it) written as a function of the content. *)
+Fixpoint dbl (c : list Z) : bool :=
+  match c with
+  | x :: ((y :: _) as r) => (py_word x && (x =? y)) || dbl r
+  | _ => false
+  end.
+Definition doubled (c : list Z) : bool := dbl (lower py_cc c).
+Definition g_dbl := mkSig 30 [40;92;119;41;92;49] (KHost doubled) 3.     (* (\w)\1, CRITICAL *)
+Definition x_helo := [104;101;108;111].                                 (* "helo" *)
+Definition x_heLlo := [104;101;76;108;111].                             (* "heLlo" *)
+
+(* installed through add_signature BEHIND three other signatures (two of them
+   regex / with groups of their own), then a history; "hello" and its case
+   variant are refused with exactly this signature reported, "helo" is not;
+   installed in front of them: the same *)
+Example ex_host_membrane :
+  let st1 := fst (mrun cfg0 (fst (mstep cfg0 st0 (OAddSig g_dbl)))
+                       [OFilter x_tea; OLearn s_learn; OSetThreshold 3; OTick 7; OClearAudit; OForget [120]]) in
+  In g_dbl (active st1) /\
+  (let r := snd (mfilter cfg0 st1 x_hello) in (r_kind r, r_allowed r, r_level r, map s_id (r_matched r)) = (Scanned, false, 3, [30])) /\
+  (let r := snd (mfilter cfg0 st1 x_heLlo) in (r_kind r, r_allowed r, map s_id (r_matched r)) = (Scanned, false, [30])) /\
+  (let r := snd (mfilter cfg0 st1 x_helo) in (r_kind r, r_allowed r, map s_id (r_matched r)) = (Scanned, true, [])) /\
+  (let r := snd (mfilter cfg0 (minit [g_dbl; s_ignore; s_foo; s_tea] 2 0) x_hello) in
+   (r_allowed r, map s_id (r_matched r)) = (false, [30])) /\
+  map s_id (scan py_cc ([s_ignore; s_foo] ++ g_dbl :: [s_tea]) [116;101;97;32;102;111;111;32;111;111]) = [1; 30; 2].
+Proof. vm_compute. repeat split; auto. Qed.
+
+Example ex_host_innate :
+  let st1 := irun py_cc (fst (istep py_cc vals0 ist0 (IAddPattern g_dbl)))
+                  [(vals0, ICheck x_tea); ([], ITick 5); (vals0, IReset); ([v_length 0 3], ICheck x_helo)] in
+  In g_dbl (i_pats st1) /\
+  (exists r, snd (icheck py_cc vals0 st1 x_hello) = IOk r /\ ir_allowed r = false /\ map s_id (ir_matched r) = [30]) /\
+  (exists r, snd (icheck py_cc vals0 st1 x_helo) = IOk r /\ ir_allowed r = true /\ ir_matched r = []).
+Proof. vm_compute. repeat split; eauto 7. Qed.
+
+Lemma dbl_cons : forall a l, dbl l = true -> dbl (a :: l) = true.
+Proof. intros a [|z l] H; [discriminate|]. cbn [dbl] in *. rewrite H. apply orb_true_r. Qed.
+Lemma dbl_app_l : forall pre s, dbl s = true -> dbl (pre ++ s) = true.
+Proof. induction pre as [|a pre IH]; intros s H; cbn [app]; auto. apply dbl_cons. auto. Qed.
+Lemma dbl_app_r : forall s post, dbl s = true -> dbl (s ++ post) = true.
+Proof.
+  induction s as [|x s IH]; intros post H; [discriminate|].
+  destruct s as [|y s]; [discriminate|]. cbn [dbl app] in *.
+  apply orb_true_iff in H. apply orb_true_iff. destruct H as [H|H]; [now left|right].
+  exact (IH post H).
+Qed.
+
+(* the host pattern meets what the case / embedding theorems ask of it *)
+Example ex_host_fold_embed_ok : sig_fold_ok py_cc g_dbl /\ sig_embed_ok py_cc g_dbl.
+Proof.
+  split.
+  - cbn. intros s s' E. unfold doubled. now rewrite E.
+  - cbn. intros s pre post _ _ H. unfold doubled in *. rewrite !lower_app.
+    apply dbl_app_l. now apply dbl_app_r.
+Qed.
+
+(* ... and an arbitrary matcher need not: the hypotheses cannot be dropped *)
+Lemma c10_host_fold_condition_needed :
+  exists cc g s s', cc_ok cc /\ lower cc s = lower cc s' /\ sig_matches cc g s <> sig_matches cc g s'.
+Proof.
+  exists py_cc, (mkSig 31 [] (KHost (fun c => match c with 65 :: _ => true | _ => false end)) 3), [65], [97].
+  split; [exact py_cc_ok|]. vm_compute. split; [reflexivity | discriminate].
+Qed.
+
 (* the Star fuel: a long-ish subject through .* twice *)
 Example ex_star : search py_cc (SeqL [Chr 60; Star Any; Chr 124; Star Any; Chr 62])
                          [60; 97; 98; 124; 99; 100; 124; 62; 120] = true.
